@@ -7,9 +7,10 @@ import Std.Data.HashMap
 import Driver.Util
 import Driver.OpsCivil
 import Driver.OpsLunar
+import Driver.OpsTerms
 namespace Driver
 
-def allOps : List (String × Handler) := opsCivil ++ opsLunar
+def allOps : List (String × Handler) := opsCivil ++ opsLunar ++ opsTerms
 
 structure Stats where
   lines : Nat := 0
@@ -66,9 +67,12 @@ def jsonOfStats (st : Stats) : String :=
 
 end Driver
 
-def main (_args : List String) : IO UInt32 := do
+def main (args : List String) : IO UInt32 := do
+  let maxDiffs := match args with
+    | [n] => n.toNat?.getD 200
+    | _ => 200
   let stdin ← IO.getStdin
   let ops : Std.HashMap String Driver.Handler := Std.HashMap.ofList Driver.allOps
-  let st ← Driver.loop ops stdin {} 200
+  let st ← Driver.loop ops stdin {} maxDiffs
   IO.println (Driver.jsonOfStats st)
   return 0
